@@ -177,6 +177,7 @@ func c29RunScenario(x *mc.Exec, sc c29Scenario, rep *mc.Report) mc.Verdict {
 	held := 0
 	var log []string
 	res := vsched.Run(x, vsched.Config{
+		FreeBlockedSwitch: true,
 		AtQuiescence: func(s *vsched.Sched) { mon.check(s) },
 		Cleanup: func() {
 			for _, c := range cancels {
